@@ -20,8 +20,7 @@ type RFuncs struct {
 	Dup      map[string]func(chan int) (<-chan int, <-chan int)
 	JoinCC   map[string]func(chan (<-chan int)) <-chan int
 	JoinSC   map[string]func([]chan int) <-chan int
-	JoinV2   func(c0, c1 chan int) <-chan int
-	JoinV3   func(c0, c1, c2 chan int) <-chan int
+	JoinV    map[string]func(cs []chan int) <-chan int
 	Pipeline func(f func(int) <-chan int, g func(int) <-chan int) func(int) <-chan int
 	Do2      map[string]func(f0, f1 func() (int, error)) (int, int, error)
 	Do3      map[string]func(f0, f1, f2 func() (int, error)) (int, int, int, error)
@@ -176,11 +175,7 @@ func RunReal(F *RFuncs, c Config, r *rand.Rand) (*Outcome, []string) {
 		consume(0, F.JoinSC[c.Variant](ins))
 	case "joinsel":
 		ins := mkIns()
-		if len(ins) == 2 {
-			consume(0, F.JoinV2(ins[0], ins[1]))
-		} else {
-			consume(0, F.JoinV3(ins[0], ins[1], ins[2]))
-		}
+		consume(0, F.JoinV[c.Variant](ins))
 	case "pipeline":
 		if c.Prefill {
 			pre := make([]chan int, len(c.Items))
